@@ -1,83 +1,7 @@
 /-
   C01 — a line written with the documented syntax parses back to the same instruction.
-  ONLY property theorems and their non-vacuity examples live here; helper lemmas are in
-  DuckModel/Lemmas/.
+  `C01Core`: the round-trip theorems about the hand-written parser model; `C01Translated`: the same
+  round trip stated on the function TRANSLATED from the current parser.rs.
 -/
-import DuckModel.Parser
-import DuckModel.Spec.Render
-import DuckModel.Lemmas.ParserLemmas
-
-namespace Duck
-open Duck.Spec
-
-/-- Every argument list over arbitrary Unicode (spaces, quotes, backslashes, `#`, `=`, `:`,
-    `$`, `%`, tabs, line breaks, the empty string …), rendered with any spacing and any
-    quote-when-optional choice and followed by an optional comment, parses back to exactly
-    that list. -/
-theorem C01_args_roundtrip (ch : List (Nat × Bool)) (k : Nat) (args : List Str)
-    (cm : Option (Nat × Str)) :
-    parseArgsLoop false (renderArgs ch k args ++ renderComment cm) = .ok args :=
-  parseArgsLoop_render ch args k (renderComment cm) (EolTail.renderComment cm)
-
-/-- One rendered line parses to exactly the instruction it was rendered from. -/
-theorem C01_line_roundtrip (ch : Choices) (i : ScriptInstr) (hi : InstrOK i) (hc : ChoicesOK ch) :
-    parseLine (renderLine ch i) = .ok (expected i) :=
-  line_roundtrip ch i hi hc
-
-/-- A script of n rendered lines parses to n instructions in order, the k-th carrying
-    source line number k. -/
-theorem C01_script_roundtrip (items : List (Choices × ScriptInstr × Bool))
-    (h : ∀ x ∈ items, InstrOK x.2.1 ∧ ChoicesOK x.1) :
-    parseText (renderScript items) = .ok (numbered 1 items) := by
-  unfold parseText parseTextFs
-  exact script_roundtrip _ _ items h 1
-
-/-- … also when the last line is not terminated. -/
-theorem C01_script_roundtrip_open (items : List (Choices × ScriptInstr × Bool))
-    (h : ∀ x ∈ items, InstrOK x.2.1 ∧ ChoicesOK x.1)
-    (hlast : ∀ x, items.getLast? = some x → renderLine x.1 x.2.1 ≠ []) :
-    parseText (renderScriptOpen items) = .ok (numbered 1 items) := by
-  unfold parseText parseTextFs
-  exact script_roundtrip_open _ _ items h hlast 1
-
-/-! ### the hypotheses are satisfiable (non-vacuity) -/
-
-/-- the label `:l`, the output `x`, the command `cmd` and awkward arguments -/
-def C01_sampleInstr : ScriptInstr :=
-  { label := some ":l".toList, output := some "x".toList, command := some "cmd".toList,
-    args := some ["".toList, "a b".toList, "x\"y\\".toList, "#".toList, "=".toList,
-      "${v}".toList, "\n".toList] }
-
-def C01_sampleChoices : Choices :=
-  { lead := " \t".toList, trail := "\r".toList, afterLabel := 2, eqBefore := 1, eqAfter := 3,
-    args := [(0, true), (2, false)], comment := some (1, " note # \" ".toList) }
-
-example : InstrOK C01_sampleInstr := instrOK_of_b _ (by decide)
-
-example : ChoicesOK C01_sampleChoices := choicesOK_of_b _ (by decide)
-
-/-- so the line theorem applies to the sample line -/
-example : parseLine (renderLine C01_sampleChoices C01_sampleInstr) = .ok (.script C01_sampleInstr) :=
-  C01_line_roundtrip _ _ (instrOK_of_b _ (by decide)) (choicesOK_of_b _ (by decide))
-
-/-- … and the script theorems to a script made of it (LF and CRLF line ends) and a blank line -/
-example : (∀ x ∈ [(C01_sampleChoices, C01_sampleInstr, true), (C01_sampleChoices, C01_sampleInstr, false),
-      (({} : Choices), ({} : ScriptInstr), false)], InstrOK x.2.1 ∧ ChoicesOK x.1) := by
-  intro x hx
-  simp only [List.mem_cons, List.not_mem_nil, or_false] at hx
-  rcases hx with rfl | rfl | rfl <;>
-    exact ⟨instrOK_of_b _ (by decide), choicesOK_of_b _ (by decide)⟩
-
-/-- white space other than the space character may stand INSIDE an argument written without
-    quotes (only `' '` separates tokens); at either end it would be trimmed, so quotes are
-    demanded there -/
-example : canUnquote ['a', '\u00a0', 'b'] = true ∧ canUnquote ['a', '\u3000'] = false ∧
-    canUnquote ['\u00a0', 'a'] = false ∧ canUnquote ['a', ' ', 'b'] = false := by decide
-
-/-- an instruction outside the domain (output variable containing `=`) is rejected by `InstrOK` -/
-example : ¬ InstrOK { output := some "a=b".toList, command := some "c".toList } := by
-  intro h
-  have := (h.output "a=b".toList rfl).2.1
-  exact absurd (this '=' (by decide)) (by decide)
-
-end Duck
+import DuckModel.Props.C01Core
+import DuckModel.Props.C01Translated
